@@ -33,6 +33,10 @@ package bttest
 //@   ensures forall i :: 0 <= i < len(r.Families) ==> len(r.Families[i].Columns) > 0
 //@   ensures forall i :: 0 <= i < len(r.Families) ==> colsNonEmpty(r.Families[i].Columns)
 //@   ensures forall i :: 0 <= i < len(r.Families) ==> colsSorted(r.Families[i].Columns)
+// frame of the two whole-heap designators: only the families of r (their Columns field and column array) are touched,
+// so a second row built side by side (the response row of ReadModifyWriteRow) keeps its structure
+//@   ensures forall f *btpb.Family :: (forall k :: 0 <= k < old(len(r.Families)) ==> old(r.Families[k]) != f) ==> f.Columns == old(f.Columns)
+//@   ensures forall s []*btpb.Column, j :: 0 <= j < len(s) && (forall k :: 0 <= k < old(len(r.Families)) ==> old(obj(r.Families[k].Columns)) != obj(s)) ==> s[j] == old(s[j])
 
 // ---------------------------------------------------------------------------------------------
 // applyMutations
@@ -178,3 +182,27 @@ package bttest
 //@   callsite getOrCreateColumn ensures rowsApart(r, resultRow)
 // C13, per rule: the cell written for a rule carries max(clock truncated to ms, newest timestamp of that column)
 //@   callsite appendOrReplaceCell requires arg1 != nil && arg1.TimestampMicros == (len(arg0) > 0 ? max(truncMs(now), arg0[0].TimestampMicros) : truncMs(now))
+// C13, per rule (the current rule is req.Rules[idx1+1]; arg0 = cells of its column before the rule, arg1 = the new cell):
+// (a) a rule naming a family that the table does not have never touches the row
+//@   callsite getOrCreateFamily requires arg0 == r ==> arg1 == req.Rules[idx1+1].FamilyName && (arg1 in cols)
+//@   callsite getOrCreateFamily requires arg0 == r || arg0 == resultRow
+// (b) the rule is applied to the column it names, inside r
+//@   callsite getOrCreateFamily requires arg0 == resultRow ==> arg1 == req.Rules[idx1+1].FamilyName
+//@   callsite getOrCreateColumn requires bytesEq(arg1, req.Rules[idx1+1].ColumnQualifier)
+//@   callsite getOrCreateColumn ensures arg0 != fam ==> arg0.Name == fam.Name && (exists i :: 0 <= i < len(resultRow.Families) && resultRow.Families[i] == arg0)
+//@   callsite appendOrReplaceCell requires arg0 == col.Cells && fam.Name == req.Rules[idx1+1].FamilyName && bytesEq(col.Qualifier, req.Rules[idx1+1].ColumnQualifier)
+//@   callsite appendOrReplaceCell requires (exists i :: 0 <= i < len(r.Families) && r.Families[i] == fam) && (exists j :: 0 <= j < len(fam.Columns) && fam.Columns[j] == col)
+// (c) only the two known rule kinds reach the store
+//@   callsite appendOrReplaceCell requires typeis(req.Rules[idx1+1].Rule, *btpb.ReadModifyWriteRule_AppendValue) || typeis(req.Rules[idx1+1].Rule, *btpb.ReadModifyWriteRule_IncrementAmount)
+// (d) an increment on an existing newest value that is not 8 bytes long never reaches the store
+//@   callsite appendOrReplaceCell requires typeis(req.Rules[idx1+1].Rule, *btpb.ReadModifyWriteRule_IncrementAmount) && len(arg0) > 0 ==> len(arg0[0].Value) == 8
+// (e) append: new value = newest value of the column (empty if the column has no cell) followed by the rule's bytes
+//@   callsite appendOrReplaceCell requires typeis(req.Rules[idx1+1].Rule, *btpb.ReadModifyWriteRule_AppendValue) ==> arg1.Value == prevVal + as(req.Rules[idx1+1].Rule, *btpb.ReadModifyWriteRule_AppendValue).AppendValue
+//@   callsite appendOrReplaceCell requires (len(arg0) > 0 ==> prevVal == arg0[0].Value) && (len(arg0) == 0 ==> len(prevVal) == 0)
+// (f) increment: the encoded number is the decoded newest value (0 if the column has no cell) plus the amount, wrapping at 64 bits
+//     (uf_be64 = big-endian decoding, see the trusted spec of binary.BigEndian.Uint64 in area_mutations.spec)
+//     (arg2 is the uint64 handed to the encoder; wrap64 maps it to the int64 with the same 64 bits)
+//@   callsite (bigEndian).PutUint64 requires wrap64(arg2) == wrap64((hasPrev ? wrap64(uf_be64(prevVal[0:8])) : 0) + as(req.Rules[idx1+1].Rule, *btpb.ReadModifyWriteRule_IncrementAmount).IncrementAmount)
+//@   callsite (bigEndian).PutUint64 requires 0 <= arg2 && arg2 <= 18446744073709551615
+//@   callsite (bigEndian).PutUint64 requires hasPrev == (len(col.Cells) > 0) && (hasPrev ==> prevVal == col.Cells[0].Value)
+//@   callsite appendOrReplaceCell requires typeis(req.Rules[idx1+1].Rule, *btpb.ReadModifyWriteRule_IncrementAmount) ==> len(arg1.Value) == 8
